@@ -94,9 +94,8 @@ Print Assumptions C03_sequence.
 Theorem C03_indirect : forall v its a b id gen, spells v its ->
   parse_u64 a = Ok id -> parse_u64 b = Ok gen ->
   forall R allow s k s_end,
-    True -> vdepth v <= MAX_DEPTH ->
+    vdepth v <= MAX_DEPTH ->
     Lexes s (IWord a :: IWord b :: IWord kw_obj :: its ++ IWord kw_endobj :: k) s_end ->
-    (forall s3, Lexes s3 (its ++ IWord kw_endobj :: k) s_end -> (length its <= fuel_for s3)%nat) ->
     exists s1, parse_indirect_object R allow F_ANY s = Ok (id, gen, v, s1) /\ Lexes s1 k s_end.
 Proof. exact parse_indirect_spelled. Qed.
 Print Assumptions C03_indirect.
@@ -118,7 +117,6 @@ Theorem C03_indirect_stream : forall d body a b id gen,
   forall R allow s s2 s3 s4 s5 eol data rest,
     1 + ddepth d <= MAX_DEPTH ->
     Lexes s (IWord a :: IWord b :: IWord kw_obj :: IWord kw_dict_open :: body ++ [IWord kw_dict_close]) s2 ->
-    (forall s0, Lexes s0 (IWord kw_dict_open :: body ++ [IWord kw_dict_close]) s2 -> (length body + 2 <= fuel_for s0)%nat) ->
     next s2 = Ok (kw_stream, s3) -> stream_eol eol -> lrest s3 = eol ++ data ++ rest ->
     dict_get key_Length d = Some (PInt (Z.of_N (lenN data))) ->
     next_expect (mkLx (lpos s3 + lenN eol + lenN data) rest) kw_endstream = Ok s4 ->
